@@ -61,7 +61,9 @@ pub mod security {
 pub fn random32() -> (r: [u8; 32]) { unimplemented!() }
 pub assume_specification<T: Clone>[ <[T]>::to_vec ](s: &[T]) -> (r: Vec<T>) ensures r@ == s@;
 #[verifier::external_body]
-pub fn base64_decode(data: &[u8]) -> (r: std::result::Result<Vec<u8>, security::Error>) { unimplemented!() }
+pub uninterp spec fn spec_b64dec(data: Seq<u8>) -> Seq<u8>;
+#[verifier::external_body]
+pub fn base64_decode(data: &[u8]) -> (r: std::result::Result<Vec<u8>, security::Error>) ensures r is Ok ==> r->Ok_0@ == spec_b64dec(data@) { unimplemented!() }
 pub uninterp spec fn str_bytes(s: Seq<char>) -> Seq<u8>;
 pub assume_specification[ String::as_bytes ](s: &String) -> (r: &[u8]) ensures r@ == str_bytes(s@);
 
@@ -144,6 +146,14 @@ impl LocalPeerService {
     #[verifier::external_body]
     pub async fn send_event(event_sender: &Sender<RemoteEvent>, event: RemoteEvent) -> (r: std::result::Result<(), SendTimeoutError>) { unimplemented!() }
 }
+/// the check that goes with the kind of meeting token the connection used
+pub open spec fn token_check_passed(tt: TokenType, proof: IdentityAnswer) -> bool {
+    match tt {
+        TokenType::AllowedPeer(p) => spec_b64dec(str_bytes(p.peer.verifying_key@)) =~= proof.peer.verifying_key@,
+        TokenType::Invite(inv) => sig_ok(proof.peer.verifying_key@, inv.spec_hash(), inv.invite_sign@),
+        TokenType::OwnedInvite(_) => true,
+    }
+}
 /// what must have been established before the connection is treated as the peer `proof.peer.verifying_key`
 pub open spec fn identity_proved(proof: IdentityAnswer, challenge: Seq<u8>) -> bool {
     sig_ok(proof.peer.verifying_key@, identity_message(challenge), proof.chall_signature@) && peer_row_valid(proof.peer)
@@ -164,18 +174,14 @@ pub open spec fn identity_proved(proof: IdentityAnswer, challenge: Seq<u8>) -> b
 //@ insert-each before-stmt "*key = proof.peer.verifying_key.clone();"
                     // [key_bound_only_after_proof] the remote key is bound to the connection only after the proof of possession verified on this call's challenge and the peer row validated
                     assert(identity_proved(proof, sent_challenge));
-//@ insert before-stmt "let mut key = remote_verifying_key.lock().await" #1
-                    // [allowed_peer_key_is_expected_key] for a known peer the proven key is the key expected for the meeting token it used
-                    assert(expected_key@ =~= proof.peer.verifying_key@);
-//@ insert before-stmt "let mut key = remote_verifying_key.lock().await" #3
-                // [invite_signed_by_proven_key] an invitation is honoured only if it was signed by the key that proved its identity
-                assert(sig_ok(proof.peer.verifying_key@, invite.spec_hash(), invite.invite_sign@));
+                    // [key_bound_only_after_the_token_check] ... and only after the check that goes with the meeting token it used: for a known peer the proven key is the key expected for that token; an accepted invitation was signed by the proven key
+                    assert(token_check_passed(token_type, proof));
 //@ insert-each before-stmt ".invite_accepted(token_type.clone(), proof.peer.clone())"
-                // [invite_consumed_only_after_proof] an invitation is consumed only by a connection that proved its key
-                assert(identity_proved(proof, sent_challenge));
+                // [invite_consumed_only_after_proof] an invitation is consumed only by a connection that proved its key and, for an accepted invitation, whose key signed it
+                assert(identity_proved(proof, sent_challenge) && token_check_passed(token_type, proof));
 //@ insert before-stmt ".connected(proof.peer.verifying_key, connection_info.conn_id)"
-            // [connected_only_after_proof] the connection is reported as connected (and will be served) only after the proof
-            assert(identity_proved(proof, sent_challenge));
+            // [connected_only_after_proof] the connection is reported as connected (and will be served) only after the proof and the token check
+            assert(identity_proved(proof, sent_challenge) && token_check_passed(token_type, proof));
 //@ end
 } // verus!
 fn main() {}
